@@ -161,20 +161,27 @@ class State:
 
 # ------------------------------------------------------------------------------ engine
 class FunctionVerifier:
-    def __init__(self, relpath, qualname, contract, spec: SpecEnv, callee_contracts=None, repo=None):
+    def __init__(self, relpath, qualname, contract, spec: SpecEnv, callee_contracts=None, repo=None, func=None,
+                 func_source=None):
         self.relpath = relpath
         self.qualname = qualname
         self.contract = contract
         self.spec = spec
         self.callees = callee_contracts or {}
         self.repo = repo or REPO
-        with open(os.path.join(self.repo, relpath)) as f:
-            self.source = f.read()
-        tree = ast.parse(self.source)
-        from .cfg import find_function
+        if func is not None:
+            # pre-translated body (cppvc): `func` is a Python FunctionDef generated from the clang AST
+            self.func = func
+            self.func_source = func_source or ast.unparse(func)
+            self.source = self.func_source
+        else:
+            with open(os.path.join(self.repo, relpath)) as f:
+                self.source = f.read()
+            tree = ast.parse(self.source)
+            from .cfg import find_function
 
-        self.func = find_function(tree, qualname)
-        self.func_source = ast.get_source_segment(self.source, self.func) or ""
+            self.func = find_function(tree, qualname)
+            self.func_source = ast.get_source_segment(self.source, self.func) or ""
         self.ctx = Ctx(spec)
         self.loop_ordinals = {}
         self._number_loops(self.func.body, "")
@@ -526,6 +533,51 @@ class FunctionVerifier:
                 # int() truncates toward zero
                 return I(f"(ite (>= {a.t} 0.0) (to_int {a.t}) (- (to_int (- {a.t}))))")
             raise Unsupported("int() of " + str(a.sort))
+        if name in ("__i8", "__i32", "__i64") and len(args) == 1:
+            v = self.ev(args[0], st, spec)
+            if v.sort == "Bool":
+                v = I(f"(ite {v.t} 1 0)")
+            bits = int(name[3:])
+            lo, hi = -(1 << (bits - 1)), (1 << (bits - 1)) - 1
+            if not spec:
+                self.oblige(st, AND(f"(<= (- {-lo}) {v.t})", f"(<= {v.t} {hi})"), f"no-signed-overflow-int{bits}", e)
+            return v
+        if name in ("__u8", "__u32", "__u64") and len(args) == 1:
+            v = self.ev(args[0], st, spec)
+            if v.sort == "Bool":
+                v = I(f"(ite {v.t} 1 0)")
+            bits = int(name[3:])
+            # unsigned arithmetic wraps by the C++ standard; the skeleton is verified under the STRICTER
+            # obligation that it never does (a wrap in index/size arithmetic is a defect in these kernels),
+            # which also keeps the value equal to the mathematical one
+            if not spec:
+                self.oblige(st, AND(f"(<= 0 {v.t})", f"(<= {v.t} {(1 << bits) - 1})"), f"no-unsigned-wraparound-uint{bits}", e)
+            return v
+        if name in ("__cdiv", "__cmod") and len(args) == 2:
+            a, b = self.ev(args[0], st, spec), self.ev(args[1], st, spec)
+            if not spec:
+                self.oblige(st, f"(not (= {b.t} 0))", "division-by-zero", e)
+            # C++ integer division truncates toward zero
+            q = (f"(ite (>= {a.t} 0) (ite (> {b.t} 0) (div {a.t} {b.t}) (- (div {a.t} (- {b.t})))) "
+                 f"(ite (> {b.t} 0) (- (div (- {a.t}) {b.t})) (div (- {a.t}) (- {b.t}))))")
+            if name == "__cdiv":
+                return I(q)
+            return I(f"(- {a.t} (* {b.t} {q}))")
+        if name == "__bit0" and len(args) == 1:
+            a = self.ev(args[0], st, spec)
+            return I(f"(mod {a.t} 2)")
+        if name == "__xor01" and len(args) == 2:
+            a, b = self.ev(args[0], st, spec), self.ev(args[1], st, spec)
+            if not spec:
+                self.oblige(st, AND(f"(<= 0 {a.t})", f"(<= {a.t} 1)", f"(<= 0 {b.t})", f"(<= {b.t} 1)"), "xor-operands-are-bits", e)
+            return I(f"(ite (= {a.t} {b.t}) 0 1)")
+        if name == "__uninit":
+            return I(self.ctx.fresh("Int", "uninit"))
+        if name == "__new_int_array" and len(args) == 1:
+            n_ = self.ev(args[0], st, spec)
+            if not spec:
+                self.oblige(st, f"(>= {n_.t} 0)", "non-negative-array-size", e)
+            return SV(("Seq", "Int"), (n_.t, self.ctx.fresh(("Seq", "Int"), "arr")))
         if name in ("np.empty", "np.zeros") and args:
             shp = self.ev(args[0], st, spec)
             zero = name == "np.zeros"
@@ -640,11 +692,21 @@ class FunctionVerifier:
             if not spec:
                 self.oblige(st, t, "callee-precondition", e, label=f"{name}.requires[{k}]")
         ret_sort = c.get("returns", "Int")
-        r = SV(ret_sort, self.ctx.fresh(ret_sort, f"{name}_result"))
+        r = self.fresh_value(ret_sort, f"{name}_result") if isinstance(ret_sort, tuple) else SV(ret_sort, self.ctx.fresh(ret_sort, f"{name}_result"))
+        if isinstance(ret_sort, tuple):
+            self.assume_wellformed(r, st)
         self.result_sv = r
+        outs = []
+        for oname_, osort in c.get("outs", []):
+            ov = self.fresh_value(osort, f"{name}_{oname_}")
+            self.assume_wellformed(ov, st)
+            inner.store[oname_ + "_out"] = ov
+            outs.append(ov)
         for ens in c.get("ensures", []):
             st.assume(self.truth(self.ev(ast.parse(ens, mode="eval").body, inner, True)))
         self.result_sv = saved_result
+        if outs:
+            return SV(("Tuple",), [r] + outs)
         return r
 
     # ------------------------------------------------------------------ statements
@@ -693,8 +755,14 @@ class FunctionVerifier:
         self.result_sv = None
 
     def ghost(self, st, where):
-        for g in self.contract.get("ghost", {}).get(where, []):
+        self.run_ghost(st, self.contract.get("ghost", {}).get(where, []), where)
+
+    def run_ghost(self, st, cmds, where):
+        for g in cmds:
             node = ast.parse(g, mode="eval").body
+            if isinstance(node, ast.Call) and isinstance(node.func, ast.Name) and node.func.id == "let":
+                st.store[node.args[0].value] = self.ev(node.args[1], st, True)
+                continue
             if isinstance(node, ast.Call) and isinstance(node.func, ast.Name) and node.func.id == "use":
                 lname = node.args[0].value
                 lem = self.spec.lemmas[lname]
@@ -722,6 +790,23 @@ class FunctionVerifier:
         m = getattr(self, "st_" + type(s).__name__, None)
         if m is None:
             raise Unsupported(f"statement {type(s).__name__} at line {s.lineno}")
+        hooks_b = self.contract.get("ghost_before")
+        hooks_a = self.contract.get("ghost_after")
+        if hooks_b or hooks_a:
+            try:
+                text = ast.unparse(s)
+            except Exception:
+                text = ""
+            for prefix, cmds in (hooks_b or {}).items():
+                if text.startswith(prefix):
+                    self.run_ghost(st, cmds, "before:" + prefix[:30])
+            for prefix, cmds in (hooks_a or {}).items():
+                if text.startswith(prefix):
+                    k0 = k
+
+                    def k(s2, cmds=cmds, prefix=prefix, k0=k0):
+                        self.run_ghost(s2, cmds, "after:" + prefix[:30])
+                        return k0(s2)
         return m(s, st, k, lc)
 
     def st_Pass(self, s, st, k, lc):
@@ -735,7 +820,8 @@ class FunctionVerifier:
 
     def st_Assert(self, s, st, k, lc):
         t = self.truth(self.ev(s.test, st))
-        self.oblige(st, t, "assert", s)
+        label = s.msg.value.replace(" ", "_") if isinstance(s.msg, ast.Constant) and isinstance(s.msg.value, str) else ""
+        self.oblige(st, t, "assert", s, label=label)
         st.assume(t)
         return k(st)
 
@@ -888,6 +974,7 @@ class FunctionVerifier:
         else:
             raise Unsupported("range with a non-unit step")
         key, lcon = self.loop_contract(s)
+        self.ghost_loop(st, key, "before")
         mods = self.modified_names(s.body) | {var}
         # the loop variable takes lo, lo+step, ...; "index state" = value about to be processed
         st0 = st.copy()
@@ -946,6 +1033,7 @@ class FunctionVerifier:
             raise Unsupported("while-else")
         key, lcon = self.loop_contract(s)
         mods = self.modified_names(s.body)
+        self.ghost_loop(st, key, "before")
         for j, t in enumerate(self.inv_terms(lcon, st)):
             self.oblige(st, t, "invariant-on-entry", s, label=f"loop[{key}].inv[{j}]")
         sth = st.copy()
